@@ -203,6 +203,31 @@ func runBatcherImpl(c BatcherCase) (evs []Ev, big, invalid int, terminated bool)
 			break
 		}
 	}
+	// A sentinel BEGIN ends the input.  The input channel is unbuffered and the batcher handles one
+	// message at a time with blocking sends, so once the sentinel has been accepted every output of every
+	// earlier message has been received here: the log can no longer end in the middle of a step, however
+	// slowly the batcher goroutine is scheduled.
+	if !terminated {
+		maxID := uint64(0)
+		for _, m := range c.Msgs {
+			if m.ID > maxID {
+				maxID = m.ID
+			}
+		}
+		sent := Msg{ID: maxID + 1, Op: "BEGIN", Key: "99999-9", Txn: "99999", Wal: 1 << 40, PKey: pkeyFor(c.Method, c.Buckets, "", "99999")}
+		rm := sent.real()
+		for {
+			r := step(rm, 5*time.Second)
+			if r == "sent" {
+				evs = append(evs, Ev{Kind: "feed", Msg: &sent})
+				break
+			}
+			if r == "done" || r == "timeout" {
+				terminated = true
+				break
+			}
+		}
+	}
 	drain(4 * tickMs * time.Millisecond)
 	// every tick flushes every open batch (negative ages), so after the input stops the output is
 	// complete one tick later.  On a loaded machine the batcher goroutine may not be scheduled within
